@@ -39,18 +39,43 @@ Definition arr_needs_wrap (p : ientry * Z) : bool :=
   | _ => false
   end.
 
+(* consumed entries of the expanded index that keep their axis (everything but integers) *)
+Definition n_kept (sh : shape) (ix : index) : Z :=
+  match expand (Z.of_nat (length sh)) ix with
+  | Ok ex => countb (fun e => consumes e && negb (is_iint e)) ex
+  | Raise _ => -1
+  end.
+Fixpoint int_before_none (seen_int : bool) (ix : index) : bool :=
+  match ix with
+  | [] => false
+  | IInt _ :: r => int_before_none true r
+  | INone :: r => seen_int || int_before_none seen_int r
+  | _ :: r => int_before_none seen_int r
+  end.
+Definition neg_start_or_step (sh : shape) (ix : index) : bool :=
+  match normalize_index ix sh with
+  | Ok nix => existsb (fun e => match e with NSlice s _ st => (s <? 0) || (st <? 0) | _ => false end) nix
+  | Raise _ => false
+  end.
+Definition is_nil {A} (l : list A) : bool := match l with [] => true | _ => false end.
+
 Definition clause_of (fmt : Z) (unsigned : bool) (sh : shape) (ix : index) : Z :=
-  if unsigned && existsb slice_neg ix then 3                         (* D6 *)
-  else if (fmt =? fmt_gcxs) && (1 <? countb is_iarr ix) then 4            (* D21 *)
-  else if (fmt =? fmt_gcxs)
-          && (match sh with [] => true | _ => false end
-              || ((2 <=? Z.of_nat (length sh)) && existsb is_new ix
-                  && forallb (fun e => is_iint e || is_new e || is_ell e) ix
-                  && (countb is_iint ix =? Z.of_nat (length sh)))) then 5  (* D22 gcxs *)
-  else if (fmt =? fmt_dok) && (match ix with [] => true | _ => false end) then 5   (* D22 dok: x[()] *)
-  else if (fmt =? fmt_dok) && all_arrays ix then 7                        (* DOK _fancy_getitem *)
-  else if (fmt =? fmt_dok) && (match sh with [] => true | _ => false end) then 8   (* 0-d DOK *)
-  else if negb (in_grammar ix) then 9                                     (* outside the property's grammar *)
+  let nd2 := (2 <=? length sh)%nat in
+  if negb (in_grammar ix) then 9                                          (* outside the property's grammar *)
+  else if unsigned && (fmt =? fmt_gcxs) && nd2 then 3                     (* gcxs_getitem_unsigned_indices *)
+  (* a 1-d GCXS delegates to COO; the GCXS code proper runs for ndim >= 2 (and breaks for 0-d) *)
+  else if (fmt =? fmt_gcxs) && is_nil sh then 5                           (* D22 gcxs 0-d *)
+  else if (fmt =? fmt_gcxs) && nd2 && (1 <? countb is_iarr ix) then 4     (* D21 *)
+  else if (fmt =? fmt_gcxs) && nd2 && existsb is_new ix && (n_kept sh ix =? 0) then 5     (* D22 gcxs *)
+  else if (fmt =? fmt_gcxs) && nd2 && existsb is_new ix && (n_kept sh ix =? 1) then 10    (* D27 *)
+  else if (fmt =? fmt_gcxs) && nd2 && existsb is_new ix && int_before_none false ix then 11   (* D28 *)
+  else if (fmt =? fmt_dok) && is_nil sh then 8                            (* D22 dok: 0-d *)
+  else if (fmt =? fmt_dok) && is_nil ix then 6                            (* D22 dok: x[()] *)
+  else if (fmt =? fmt_dok) && all_arrays ix then 7                        (* D24 DOK _fancy_getitem *)
+  else if existsb is_ell ix && negb (last_is_ellipsis ix) && forallb (fun e => is_iint e || is_ell e) ix
+          && (countb is_iint ix =? Z.of_nat (length sh)) then 12          (* D26 *)
+  else if existsb (fun p => match fst p with IBArr [] => negb (snd p =? 0) | _ => false end) (faced_of sh ix)
+       then 13                                                            (* D29 *)
   else 0.
 
 (* ---------------------------------------------------------------- expected result *)
